@@ -92,13 +92,16 @@ def gen_case(rng):
     t = 0
     for _ in range(rng.randint(0, 4)):
         t = rng.randint(t, horizon)
-        kind = rng.choice(["get", "drift", "vol", "shock", "corr", "corr", "uncorr"])
+        kind = rng.choice(["get", "drift", "vol", "shock", "corr", "corr", "uncorr", "readd"])
         ops.append({"kind": kind, "t": t, "market": rng.randint(0, n - 1), "value": rng.choice([0.0, 5e-4, -1e-3, 0.02, 0.005]),
                     "scale": rng.choice([0.5, 1.1, 2.0]), "swap": rng.random() < 0.5,
                     "rho": rng.choice([0.3, 0.3, -0.3, 0.25]),
                     # a setter called right after the previous one, with no price read in between (an
                     # event handler that changes several parameters, or schedules a later change)
-                    "noread": kind not in ("get", "shock") and rng.random() < 0.4})
+                    "noread": kind not in ("get", "shock", "readd") and rng.random() < 0.4,
+                    # "readd": the market is removed and registered again (same id) from time t on, with another
+                    # volatility; its history before t is a new market's (flat at the level it had)
+                    "newvol": rng.choice([0.002, 0.02, 0.0])})
     # the same pair may be stated more than once, in either orientation (the last statement counts)
     corr0 = []
     for a, b, c in corr:
@@ -159,6 +162,13 @@ def run_case(case):
                 f.version += 1
                 del f.expected_corr[frozenset((a, b))]
                 f.fs("C", t, f.version)
+        elif k == "readd":
+            i = op["market"]
+            level = f.prices[i][t]
+            f.remove_market(i)
+            f.add_market(market_id=i, initial=level, drift=case["markets"][i]["drift"], volatility=op["newvol"], start_at=t)
+            f.version += 1
+            f.fs("C", t, f.version)
         elif k == "shock":
             # what Market.change_fundamental_price does
             new = f.prices[op["market"]][t] * op["scale"]
@@ -184,12 +194,12 @@ def monitor(case, f, events):
     for i, m in enumerate(case["markets"]):
         p = f.prices[i]
         shocked0 = any(op["kind"] == "shock" and op["t"] == 0 and op["market"] == i for op in case["ops"])
-        if p[0] != m["initial"] and not shocked0:
+        if p[0] != m["initial"] and not shocked0 and not any(op["kind"] == "readd" and op["market"] == i for op in case["ops"]):
             out.append(viol("C12/first-price-not-initial", "fundamental prices start at the configured initial value", {"market": i, "p0": p[0]}, case))
         if any(not (x > 0) for x in p[: H + 1]):
             out.append(viol("C12/non-positive-price", "fundamental prices stay strictly positive", {"market": i}, case))
     # zero volatility, no later change: closed form
-    touched = {op["market"] for op in case["ops"] if op["kind"] in ("drift", "vol", "shock")}
+    touched = {op["market"] for op in case["ops"] if op["kind"] in ("drift", "vol", "shock", "readd")}
     for i, m in enumerate(case["markets"]):
         if m["vol"] == 0.0 and i not in touched:
             for t in (1, H // 2, H):
@@ -202,6 +212,8 @@ def monitor(case, f, events):
     for ev in events:
         op, t = ev["op"], ev["op"]["t"]
         for i in range(n):
+            if op["kind"] == "readd" and i == op["market"]:
+                continue        # a new market under the old id: its history is the new market's
             b, a = ev["before"][i], ev["after"][i]
             # the property speaks of times strictly before t; values beyond the regeneration point as it
             # stood before the call were already discarded by an earlier change (they are not values yet)
@@ -217,9 +229,13 @@ def monitor(case, f, events):
     def in_force(kind, i, u, init):
         val = init
         for op in case["ops"]:
-            if op["kind"] == kind and op["market"] == i and op["t"] < u:
-                val = abs(op["value"]) if kind == "vol" else op["value"]
+            if op["market"] == i and op["t"] < u:
+                if op["kind"] == kind:
+                    val = abs(op["value"]) if kind == "vol" else op["value"]
+                elif op["kind"] == "readd":
+                    val = op["newvol"] if kind == "vol" else case["markets"][i]["drift"]
         return val
+    readded = {op["market"] for op in case["ops"] if op["kind"] == "readd"}
     last_chunk = {}
     for ch in f.chunks:
         for k, x in enumerate(ch["ids"]):
@@ -242,7 +258,8 @@ def monitor(case, f, events):
             break
     # zero volatility throughout: the path is the piecewise closed form, with the shocks as factors
     for i, m in enumerate(case["markets"]):
-        if m["vol"] != 0.0 or any(op["kind"] == "vol" and op["market"] == i and abs(op["value"]) != 0.0 for op in case["ops"]):
+        if m["vol"] != 0.0 or any(op["kind"] == "vol" and op["market"] == i and abs(op["value"]) != 0.0 for op in case["ops"]) \
+                or i in readded:
             continue
         exp_p = m["initial"]
         for u in range(0, H + 1):
@@ -261,9 +278,21 @@ def monitor(case, f, events):
         ids = ch["ids"]
         cid = [x for x in ids if ch["vols"][ids.index(x)] != 0.0]
         L, z = ch.get("L"), ch.get("z")
+        if L is None and cid and z is not None:
+            # no factorisation was observed for this chunk (a cached factor?): the monitor's own factor of
+            # vol x (configured correlations) x vol is what the returns must have been built with
+            vv = [ch["vols"][ids.index(x)] for x in cid]
+            covm = np.array([[vv[a] * (1.0 if a == b else ch.get("expected_corr", {}).get(frozenset((cid[a], cid[b])), 0.0)) * vv[b]
+                              for b in range(len(cid))] for a in range(len(cid))])
+            try:
+                L = np.linalg.cholesky(covm)
+            except Exception:
+                L = None
         for k, x in enumerate(ids):
             for j in range(0, ch["length"], max(1, ch["length"] // 7)):
                 if ch["vols"][k] != 0.0:
+                    if L is None or z is None:
+                        break
                     row = cid.index(x)
                     r = ch["drifts"][k] + sum(L[row][c] * z[c][j] for c in range(len(cid)))
                 else:
@@ -272,7 +301,7 @@ def monitor(case, f, events):
                     out.append(viol("C12/return-not-drift-plus-cholesky-times-draw", "per-step log return = drift + (L z) with L the Cholesky factor of vol x corr x vol",
                                     {"market": x, "step": j, "return": float(ch["returns"][k][j]), "expected": r}, case))
                     break
-        if L is not None and len(cid) > 0:
+        if ch.get("L") is not None and len(cid) > 0:
             cov = ch["cov"]
             if not np.allclose(L @ L.T, cov, rtol=1e-9, atol=1e-15) or not np.allclose(L, np.tril(L)):
                 out.append(viol("C12/cholesky-not-factor-of-covariance", "L is lower triangular with L L^T = vol corr vol", {}, case))
